@@ -698,12 +698,19 @@ struct Req {
     align: usize,
     /// reached by doubling reallocs from an eighth of the size (a growing Vec)
     grow: bool,
+    /// requested zeroed (calloc)
+    zeroed: bool,
 }
 
 struct Round {
     /// small blocks allocated during the first round (after request `.0`) and kept until the end:
     /// ordinary long-lived program state that keeps the heap from collapsing into one trimmed top
     pins: Vec<(usize, usize)>,
+    /// index of a pin that is given back right after the pins were allocated: a hole between
+    /// long-lived blocks that stays for the whole run
+    pin_freed_at_once: Option<usize>,
+    /// a block allocated and freed before anything else (shapes the first mapping and top)
+    warm: usize,
     reqs: Vec<Req>,
     /// (after request i, free block j < i): frees in the middle of the round
     early_frees: Vec<(usize, usize)>,
@@ -729,7 +736,7 @@ fn gen_round(dec: &mut Dec, big_holes: bool) -> Round {
                 size = 1 + size % 9000;
             }
         }
-        reqs.push(Req { size, align: if profile == 7 { 1usize << dec.choose(K::Arg, 5) } else { gen_align(dec) }, grow: !big_holes && dec.chance(K::Arg, 1, 5) });
+        reqs.push(Req { size, align: if profile == 7 { 1usize << dec.choose(K::Arg, 5) } else { gen_align(dec) }, grow: !big_holes && dec.chance(K::Arg, 1, 5), zeroed: size <= (2 << 20) && dec.chance(K::Arg, 1, 4) });
     }
     let mut free_order: Vec<usize> = (0..n).collect();
     match dec.choose(K::Cfg, 4) {
@@ -758,20 +765,36 @@ fn gen_round(dec: &mut Dec, big_holes: bool) -> Round {
             }
         }
     }
+    if big_holes && dec.chance(K::Cfg, 1, 3) {
+        // the exact-split form: a hole between two live fences is opened, a first request is split
+        // off it and a second one is sized to take the remainder exactly (no byte to spare)
+        let chunk = |r: usize| ((r + 8 + 15) & !15).max(32);
+        let hole = *dec.pick(K::Arg, &[256usize << 10, 1 << 20, 3 << 19]) + 16 * dec.choose(K::Arg, 64) as usize;
+        // the first request is small (its remainder becomes the designated victim) or not
+        let first = if dec.chance(K::Arg, 2, 3) { 8 + 8 * dec.choose(K::Arg, 28) as usize } else { 256 + 16 * dec.choose(K::Arg, 4096) as usize };
+        let second = chunk(hole) - chunk(first) - 8;
+        let warm = if dec.chance(K::Arg, 1, 2) { hole + (hole >> 1) + 4096 * dec.choose(K::Arg, 64) as usize } else { 0 };
+        let r = |size| Req { size, align: 8, grow: false, zeroed: false };
+        // fences and the hole are long-lived: allocated once, the hole given back at once; every
+        // round then takes the two requests out of the hole and gives them back (either order)
+        let reqs = vec![r(first), r(second)];
+        let free_order = if dec.chance(K::Arg, 1, 2) { vec![1, 0] } else { vec![0, 1] };
+        return Round { pins: vec![(0, 64), (0, hole), (0, 64)], pin_freed_at_once: Some(1), warm, early_frees: Vec::new(), reqs, free_order };
+    }
     if big_holes && dec.chance(K::Cfg, 1, 2) {
         // the plain form of the family: two huge blocks kept apart by a small one, both freed,
         // then 1..4 huge blocks that fit the holes
         let huge = |dec: &mut Dec| ((6 + dec.choose(K::Arg, 36) as usize) << 20) + 4096 * dec.choose(K::Arg, 512) as usize;
-        let r = |size| Req { size, align: 8, grow: false };
+        let r = |size| Req { size, align: 8, grow: false, zeroed: false };
         let mut reqs = vec![r(huge(dec)), r(16 + dec.choose(K::Arg, 2000) as usize), r(huge(dec))];
         let z = huge(dec);
         for _ in 0..1 + dec.choose(K::Arg, 4) {
             reqs.push(r(if dec.chance(K::Arg, 2, 3) { z } else { huge(dec) }));
         }
         let n = reqs.len();
-        return Round { pins: vec![(0, 64)], early_frees: vec![(2, 0), (2, 2)], reqs, free_order: (0..n).collect() };
+        return Round { pins: vec![(0, 64)], pin_freed_at_once: None, warm: 0, early_frees: vec![(2, 0), (2, 2)], reqs, free_order: (0..n).collect() };
     }
-    Round { pins, early_frees, reqs, free_order }
+    Round { pins, pin_freed_at_once: None, warm: 0, early_frees, reqs, free_order }
 }
 
 /// The growth oracle over the per-window maxima of the mapped byte total.
@@ -810,9 +833,11 @@ fn run_footprint_single(dec: Dec, opts: &RunOpts, rounds: usize, big_holes: bool
     if std::env::var_os("VERIF_C04_DEMO").is_some() {
         // debugging aid, never part of a registered command: one fixed big-holes round
         let mib = 1usize << 20;
-        let r = |size| Req { size, align: 8, grow: false };
+        let r = |size| Req { size, align: 8, grow: false, zeroed: false };
         round = Round {
             pins: vec![(0, 64)],
+            pin_freed_at_once: None,
+            warm: 0,
             reqs: vec![r(13 * mib), r(512), r(32 * mib), r(23 * mib - 4096), r(23 * mib - 4096), r(23 * mib - 4096), r(23 * mib - 4096)],
             early_frees: vec![(2, 0), (2, 2)],
             free_order: (0..7).collect(),
@@ -842,6 +867,12 @@ fn run_footprint_single(dec: Dec, opts: &RunOpts, rounds: usize, big_holes: bool
             let mut ptrs: Vec<usize> = vec![0; round.reqs.len()];
             let mut pinned: Vec<usize> = Vec::new();
             let mut pinned_bytes = 0usize;
+            if round.warm > 0 {
+                let w = unsafe { a.malloc(round.warm, 8) };
+                if !w.is_null() {
+                    unsafe { a.free(w) };
+                }
+            }
             for r in 0..rounds {
                 let mut live = pinned_bytes;
                 for (i, q) in round.reqs.iter().enumerate() {
@@ -849,10 +880,20 @@ fn run_footprint_single(dec: Dec, opts: &RunOpts, rounds: usize, big_holes: bool
                         for (after, sz) in &round.pins {
                             if *after == i {
                                 let p = unsafe { a.malloc(*sz, 8) } as usize;
+                                pinned.push(p);
                                 if p != 0 {
-                                    pinned.push(p);
                                     pinned_bytes += *sz;
                                     live += *sz;
+                                }
+                            }
+                        }
+                        if i == 0 {
+                            if let Some(k) = round.pin_freed_at_once {
+                                if pinned.get(k).is_some_and(|p| *p != 0) {
+                                    unsafe { a.free(pinned[k] as *mut u8) };
+                                    pinned[k] = 0;
+                                    pinned_bytes -= round.pins[k].1;
+                                    live -= round.pins[k].1;
                                 }
                             }
                         }
@@ -873,6 +914,8 @@ fn run_footprint_single(dec: Dec, opts: &RunOpts, rounds: usize, big_holes: bool
                             cur = next;
                         }
                         p
+                    } else if q.zeroed {
+                        (unsafe { a.calloc(q.size, q.align) }) as usize
                     } else {
                         (unsafe { a.malloc(q.size, q.align) }) as usize
                     };
